@@ -406,4 +406,11 @@ def d7_split(ctx):
             ctx.ok('D7', '%s applies the remaining duration with %s' % (op, want), 'gamma', site=b.loc)
 
 
-RULES = [('D1', d1_steps), ('D2', d2_small_date), ('D3', d3_difference), ('D4', d4_day_constants), ('D5', d5_all_matches), ('D6', d6_month_numbers), ('D7', d7_split)]
+def d8_month_spellings(ctx):
+    """D8 every configured month spelling of every language is recognised by the month regexes built at load time
+    (shared with C19 L2)"""
+    from .C19 import l2_month_spellings
+    l2_month_spellings(ctx)
+
+
+RULES = [('L2', d8_month_spellings), ('D1', d1_steps), ('D2', d2_small_date), ('D3', d3_difference), ('D4', d4_day_constants), ('D5', d5_all_matches), ('D6', d6_month_numbers), ('D7', d7_split)]
